@@ -844,6 +844,80 @@ def mutations(d, rng):
 
 
 # ---------------------------------------------------------------------------------------
+# bounded-exhaustive hierarchies
+
+def _forest_shapes(nl, ns):
+    """all ordered forests with exactly nl leaves and ns (non-empty) superstates; 'L' | ('S', forest)"""
+    if nl == 0 and ns == 0:
+        yield []
+        return
+    if nl > 0:
+        for rest in _forest_shapes(nl - 1, ns):
+            yield ['L'] + rest
+    if ns > 0:
+        for a in range(1, nl + 1):
+            for b in range(0, ns):
+                for body in _forest_shapes(a, b):
+                    for rest in _forest_shapes(nl - a, ns - 1 - b):
+                        yield [('S', body)] + rest
+
+def forest_exhaustive(max_leaves=4, max_sups=3, step=1):
+    """every hierarchy shape with <= max_leaves leaves and <= max_sups superstates (any nesting, any position of
+    leaves relative to nested blocks), every choice of explicit `initial:` per superstate (none or any leaf
+    beneath it, written first or last in the block), and for every state or superstate an event leaving it;
+    the targets rotate through all names across the definitions. Well-formed by construction."""
+    import itertools
+    out = []
+    counter = [0]
+    for nl in range(1, max_leaves + 1):
+        for ns in range(0, max_sups + 1):
+            for shape in _forest_shapes(nl, ns):
+                lnames = iter(['A', 'B', 'Cc', 'D9'])
+                snames = iter(['P', 'Q', 'R2'])
+                sups = []          # (name, leaves beneath)
+                def build(items, top):
+                    res = []
+                    for it in items:
+                        if it == 'L':
+                            res.append(('leaf' if top else 'state', next(lnames), None))
+                        else:
+                            nm = next(snames)
+                            body = build(it[1], False)
+                            res.append(('sup', nm, None, body))
+                            sups.append((nm, _leaf_names(body)))
+                    return res
+                forest = build(shape, True)
+                leaves = _leaf_names(forest)
+                names = leaves + [n for n, _ in sups]
+                opts = [[None] + [(l, pos) for l in ls for pos in ((0, 1) if len(ls) > 1 else (0,))] for _, ls in sups]
+                for combo in itertools.product(*opts):
+                    counter[0] += len(names)
+                    if step > 1 and (counter[0] // step) == ((counter[0] - len(names)) // step):
+                        continue
+                    ini = {sups[i][0]: c for i, c in enumerate(combo) if c is not None}
+                    def with_ini(items):
+                        res = []
+                        for it in items:
+                            if it[0] == 'sup':
+                                body = with_ini(it[3])
+                                if it[1] in ini:
+                                    l, pos = ini[it[1]]
+                                    body = ([('initial', l)] + body) if pos == 0 else (body + [('initial', l)])
+                                res.append(('sup', it[1], it[2], body))
+                            else:
+                                res.append(it)
+                        return res
+                    f2 = with_ini(forest)
+                    for j in range(len(names)):
+                        if step > 1 and (counter[0] - len(names) + j + 1) % step != 0:
+                            continue
+                        blocks = [(f'e{i}', [('transition', [('from', [names[i]], False), ('to', names[(i + j) % len(names)])])])
+                                  for i in range(len(names))]
+                        out.append([('name', 'M'), ('dynamic', True), ('initial', leaves[j % len(leaves)]),
+                                    ('states', f2), ('events', blocks, True)])
+    return out
+
+# ---------------------------------------------------------------------------------------
 # bounded-exhaustive small definitions
 
 def small_exhaustive():
